@@ -1493,6 +1493,112 @@ pub fn run(cfg: &Cfg) -> Report {
     }
   }
 
+  lexfix_families(&mut rep, &mut model);
+
   rep.model_requests = model.requests;
   rep
+}
+
+// ------------------------------------------------------------------------------------------
+// lexfix: name forms outside the generated scopes (reviewers' items L4-L8)
+// ------------------------------------------------------------------------------------------
+
+const SIG_ITEM_PREFIX: &str = "bound name whose first word is `item` does not evaluate to its bound value";
+const SIG_KEYWORD_NAME: &str = "bound name `list`, `range` or `context` followed by `<` does not evaluate to its bound value";
+const SIG_BINDING_SITE: &str = "a name cannot be introduced (context key, function parameter, named argument) when a prefix of it is bound";
+const SIG_NESTED_KEY: &str = "a key of a nested context hides the operator reading although no bound name matches";
+const SIG_UNBOUND_ENTRY: &str = "entry name of a context that is not bound in the scope is not resolved after a path or in a filter";
+
+/// A scope from `(parts, value)` pairs; a value is a number, a context `{parts: number, …}` or the function
+/// obtained by evaluating a FEEL text in the empty scope.
+enum LfValue {
+  Num(i128),
+  Ctx(Vec<(Vec<&'static str>, i128)>),
+  Fun(&'static str),
+}
+
+fn lf_scope(entries: &[(Vec<&'static str>, LfValue)]) -> Option<Scope> {
+  let scope = Scope::default();
+  for (parts, v) in entries {
+    let value = match v {
+      LfValue::Num(n) => Value::Number(FeelNumber::from_i128(*n)),
+      LfValue::Ctx(es) => {
+        let mut ctx = FeelContext::default();
+        for (p, n) in es {
+          ctx.set_entry(&Name::new(p), Value::Number(FeelNumber::from_i128(*n)));
+        }
+        Value::Context(ctx)
+      }
+      LfValue::Fun(text) => {
+        let empty = Scope::default();
+        let node = guarded(|| dmntk_feel_parser::parse_expression(&empty, text, false)).ok()?.ok()?;
+        dmntk_feel_evaluator::evaluate(&empty, &node).ok()?
+      }
+    };
+    scope.set_entry(&Name::new(parts), value);
+  }
+  Some(scope)
+}
+
+/// Families `item-prefix` (L4), `keyword-name` (L5), `binding-site` (L6), `nested-key` (L7), `unbound-entry` (L8):
+/// written-out expectations (the value the expression denotes when every name resolves as the property says),
+/// plus the token streams of the same inputs against the lexer model.
+fn lexfix_families(rep: &mut Report, model: &mut Model) {
+  use LfValue::{Ctx, Fun, Num};
+  let cases: Vec<(&'static str, &'static str, Vec<(Vec<&'static str>, LfValue)>, &'static str, &'static str)> = vec![
+    // L4: a bound name that begins with the word `item`; `item` alone stays the filter variable
+    ("item-prefix", SIG_ITEM_PREFIX, vec![(vec!["item", "count"], Num(2))], "item count + 1", "3"),
+    ("item-prefix", SIG_ITEM_PREFIX, vec![(vec!["item", "count"], Num(2))], "[item count, 1]", "[2, 1]"),
+    ("item-prefix", SIG_ITEM_PREFIX, vec![(vec!["item", "count"], Num(2)), (vec!["item"], Num(5))], "item count + item", "7"),
+    ("item-prefix", SIG_ITEM_PREFIX, vec![(vec!["item", "-", "no"], Num(2))], "item-no * 2", "4"),
+    ("item-prefix", SIG_ITEM_PREFIX, vec![(vec!["item", "count"], Num(2))], "[1, 2, 3][item > 1]", "[2, 3]"),
+    ("item-prefix", SIG_ITEM_PREFIX, vec![(vec!["item", "count"], Num(2))], "[1, 2, 3][item >= item count]", "[2, 3]"),
+    ("item-prefix", SIG_ITEM_PREFIX, vec![(vec!["a"], Num(1))], "count([{x: 1}, {x: 2}, {x: 3}][item.x > a])", "2"),
+    ("item-prefix", SIG_ITEM_PREFIX, vec![(vec!["a"], Num(1))], "sum(for item count in [1, 2] return item count * 2)", "6"),
+    // L5
+    ("keyword-name", SIG_KEYWORD_NAME, vec![(vec!["list"], Num(2))], "list < 3", "true"),
+    ("keyword-name", SIG_KEYWORD_NAME, vec![(vec!["range"], Num(2))], "range <3", "true"),
+    ("keyword-name", SIG_KEYWORD_NAME, vec![(vec!["context"], Num(2))], "if context < 3 then 1 else 0", "1"),
+    // L6
+    ("binding-site", SIG_BINDING_SITE, vec![(vec!["a"], Num(1))], "{a c: 2, r: a c + a}.r", "3"),
+    ("binding-site", SIG_BINDING_SITE, vec![(vec!["a"], Num(1))], "(function(a c) a c + a)(4)", "5"),
+    ("binding-site", SIG_BINDING_SITE, vec![(vec!["x"], Num(1)), (vec!["f"], Fun("function(x y) x y + 1"))], "f(x y: 1)", "2"),
+    // L7
+    ("nested-key", SIG_NESTED_KEY, vec![(vec!["order"], Ctx(vec![(vec!["a", "+", "b"], 5)])), (vec!["a"], Num(1)), (vec!["b"], Num(2))], "a+b", "3"),
+    ("nested-key", SIG_NESTED_KEY, vec![(vec!["order"], Ctx(vec![(vec!["a", "-", "b"], 5)])), (vec!["a"], Num(3)), (vec!["b"], Num(2))], "a - b", "1"),
+    // L8
+    ("unbound-entry", SIG_UNBOUND_ENTRY, vec![(vec!["zz"], Num(1))], "{m n: {k l: 2}, r: m n.k l + zz}.r", "3"),
+    ("unbound-entry", SIG_UNBOUND_ENTRY, vec![(vec!["zz"], Num(1))], "{k l: 2}.k l + zz", "3"),
+    ("unbound-entry", SIG_UNBOUND_ENTRY, vec![(vec!["zz"], Num(1))], "count([{p q: 1}, {p q: 2}, {p q: 3}][p q + zz > 2])", "2"),
+  ];
+  let mut reqs = vec![];
+  let mut toks = vec![];
+  for (family, sig, entries, text, expected) in &cases {
+    let scope = match lf_scope(entries) {
+      Some(s) => s,
+      None => {
+        rep.disagree(Kind::ImplVsSpec, family, sig, text, "the scope could not be built", expected);
+        continue;
+      }
+    };
+    rep.case(&format!("{}|{}|{}", family, sorted_keys(&scope).join(","), text), true);
+    rep.hit(&format!("name-forms:{}", family));
+    let got = eval_text(&lf_scope(entries).unwrap(), text);
+    if got != *expected {
+      rep.disagree(Kind::ImplVsSpec, family, sig, &format!("keys={:?} expression={:?}", sorted_keys(&scope), text), &got, expected);
+    }
+    // the lexer alone on the same input: impl = model
+    let keys = sorted_keys(&scope);
+    let imp = impl_tokens(&scope, text, (false, false, false, false), 200);
+    reqs.push(tokenize_request(&keys, text, (false, false, false, false), 200));
+    toks.push((keys, text, imp));
+  }
+  let answers = model.ask_batch(&reqs);
+  for ((keys, text, imp), a) in toks.iter().zip(answers.iter()) {
+    rep.case(&format!("tokens|{:?}|name-forms|{}", keys, text), true);
+    rep.hit("tokens:name-forms");
+    if let Err((what, imp, exp)) = compare_streams(imp, a) {
+      rep.disagree(Kind::ImplVsModel, "tokens", &format!("lexer token stream: {}", what), &format!("keys={:?} flags=(false, false, false, false) input={:?}", keys, text), &imp, &exp);
+    }
+  }
 }
